@@ -549,6 +549,34 @@ static size_t get_value_size(carquet_physical_type_t type, int32_t type_length) 
 }
 
 /* ============================================================================
+ * Helpers: bounds of pages inside a memory-mapped file / buffer
+ * ============================================================================
+ * Offsets and sizes come from file metadata and page headers, i.e. from the
+ * input.  Everything that is dereferenced must lie inside [0, file_size).
+ */
+
+static bool mmap_page_header_window(const carquet_reader_t* file_reader,
+                                    int64_t offset, size_t* window) {
+    if (offset < 0 || (uint64_t)offset >= (uint64_t)file_reader->file_size) {
+        return false;
+    }
+    size_t avail = file_reader->file_size - (size_t)offset;
+    *window = avail < 256 ? avail : 256;
+    return true;
+}
+
+static bool page_sizes_valid(const parquet_page_header_t* header) {
+    return header->compressed_page_size >= 0 && header->uncompressed_page_size >= 0;
+}
+
+static bool mmap_page_body_in_file(const carquet_reader_t* file_reader, int64_t offset,
+                                   size_t header_size, const parquet_page_header_t* header) {
+    uint64_t end = (uint64_t)offset + (uint64_t)header_size +
+                   (uint64_t)header->compressed_page_size;
+    return page_sizes_valid(header) && end <= (uint64_t)file_reader->file_size;
+}
+
+/* ============================================================================
  * Helper: Load dictionary page (mmap path)
  * ============================================================================
  */
@@ -563,18 +591,28 @@ static carquet_status_t load_dictionary_page_mmap(
     const parquet_column_metadata_t* col_meta = reader->col_meta;
 
     /* Parse page header directly from mmap */
+    size_t header_window;
+    if (!mmap_page_header_window(file_reader, dict_offset, &header_window)) {
+        CARQUET_SET_ERROR(error, CARQUET_ERROR_INVALID_PAGE, "Dictionary page offset outside file");
+        return CARQUET_ERROR_INVALID_PAGE;
+    }
     const uint8_t* header_ptr = mmap_data + dict_offset;
 
     parquet_page_header_t page_header;
     size_t header_size;
     carquet_status_t status = parquet_parse_page_header(
-        header_ptr, 256, &page_header, &header_size, error);
+        header_ptr, header_window, &page_header, &header_size, error);
     if (status != CARQUET_OK) {
         return status;
     }
 
     if (page_header.type != CARQUET_PAGE_DICTIONARY) {
         CARQUET_SET_ERROR(error, CARQUET_ERROR_INVALID_PAGE, "Expected dictionary page");
+        return CARQUET_ERROR_INVALID_PAGE;
+    }
+
+    if (!mmap_page_body_in_file(file_reader, dict_offset, header_size, &page_header)) {
+        CARQUET_SET_ERROR(error, CARQUET_ERROR_INVALID_PAGE, "Dictionary page extends beyond file");
         return CARQUET_ERROR_INVALID_PAGE;
     }
 
@@ -825,12 +863,17 @@ static carquet_status_t load_next_page_mmap(
 
     /* Parse page header directly from mmap */
     int64_t page_offset = reader->data_start_offset + reader->current_page;
+    size_t header_window;
+    if (!mmap_page_header_window(file_reader, page_offset, &header_window)) {
+        CARQUET_SET_ERROR(error, CARQUET_ERROR_INVALID_PAGE, "Page offset outside file");
+        return CARQUET_ERROR_INVALID_PAGE;
+    }
     const uint8_t* header_ptr = mmap_data + page_offset;
 
     parquet_page_header_t page_header;
     size_t header_size;
     carquet_status_t status = parquet_parse_page_header(
-        header_ptr, 256, &page_header, &header_size, error);
+        header_ptr, header_window, &page_header, &header_size, error);
     if (status != CARQUET_OK) {
         return status;
     }
@@ -856,6 +899,12 @@ static carquet_status_t load_next_page_mmap(
 
     if (page_header.type != CARQUET_PAGE_DATA) {
         CARQUET_SET_ERROR(error, CARQUET_ERROR_INVALID_PAGE, "Expected data page");
+        return CARQUET_ERROR_INVALID_PAGE;
+    }
+
+    if (!mmap_page_body_in_file(file_reader, page_offset, header_size, &page_header) ||
+        page_header.data_page_header.num_values < 0) {
+        CARQUET_SET_ERROR(error, CARQUET_ERROR_INVALID_PAGE, "Page extends beyond file");
         return CARQUET_ERROR_INVALID_PAGE;
     }
 
@@ -886,6 +935,14 @@ static carquet_status_t load_next_page_mmap(
     /* Additional constraint: no definition/repetition levels for zero-copy
      * (levels require RLE decoding which modifies data layout) */
     bool has_levels = (reader->max_def_level > 0 || reader->max_rep_level > 0);
+
+    /* A zero-copy page is handed out as num_values values: they must all be
+     * inside the page */
+    if (zero_copy_eligible && !has_levels &&
+        (uint64_t)num_values * value_size > (uint64_t)page_header.compressed_page_size) {
+        CARQUET_SET_ERROR(error, CARQUET_ERROR_INVALID_PAGE, "Page too small for its value count");
+        return CARQUET_ERROR_INVALID_PAGE;
+    }
 
     if (zero_copy_eligible && !has_levels) {
         /* ====== ZERO-COPY PATH ====== */
